@@ -141,6 +141,10 @@ End M.
    OWN <lease> <buckets> <keys> <step>...   steps: the client op tokens of Model/StorageOutbox.v
    (only calls that are routed to the outbox), C<w> R<w> F<w> H<w> K<w> T<n>
    output: one token per step, "#", the sweep of the inner storage, Q<pending>;
+   "ORD <pairs> <spinners>": regression detector for "entry ids sort in acceptance order" ([e_id] /
+   [oe_id] = acceptance counter in both models): the harness saves <pairs> entries through the real
+   repository while <spinners> goroutines create other ULIDs and answers "ordered" or "inverted:<k>";
+   the models' ids are the acceptance order by construction, so the model answers "ordered";
    any other line is a Model/StorageOutbox.v line *)
 Definition parse_mstep (t : bytes) : option mstep :=
   match t with
@@ -172,6 +176,9 @@ Definition run_owners (toks : list bytes) : bytes :=
   end.
 Definition run_line (l : bytes) : bytes :=
   match tokens l with
-  | t :: rest => if bytes_eqb t B"OWN" then run_owners rest else run_line_single l
+  | t :: rest =>
+      if bytes_eqb t B"OWN" then run_owners rest
+      else if bytes_eqb t B"ORD" then B"ordered"
+      else run_line_single l
   | [] => parse_error
   end.
